@@ -46,7 +46,7 @@ def trace_of(m, t):
     return s, list(tr.index), tr
 
 
-def run_traced(case, trace_arg, repeat=1, entry='solve_t'):
+def run_traced(case, trace_arg, repeat=1, entry='solve_t', reset=False):
     m = sc.build_instance(case, mixins=(TracerMixin,), exo=())
     kw = sc.opts_kwargs(case['opts'], case['tol'])
     tags = []
@@ -55,10 +55,10 @@ def run_traced(case, trace_arg, repeat=1, entry='solve_t'):
         for _ in range(repeat):
             try:
                 if entry == 'solve_t':
-                    r = m.solve_t(case['t'], trace=trace_arg, **kw)
+                    r = m.solve_t(case['t'], trace=trace_arg, reset=reset, **kw)
                 elif entry == 'solve_period':
                     t = case['t'] + case['n'] if case['t'] < 0 else case['t']
-                    r = m.solve_period(t, trace=trace_arg, **kw)   # span is range(n): label == position
+                    r = m.solve_period(t, trace=trace_arg, reset=reset, **kw)   # span is range(n): label == position
                 tags.append('ret:T' if r else 'ret:F')
             except Exception as e:  # noqa: BLE001
                 tags.append(sc.exc_name(e))
@@ -87,27 +87,27 @@ def state_str(m, nE):
     return f'{st}|{it}|{vals}'
 
 
-def oracle(case, trace_arg, names_idx, repeat, entry, rep):
+def oracle(case, trace_arg, names_idx, repeat, entry, rep, reset=False):
     """Property restated: traced twin == untraced twin; trace off => empty; shape of the trace."""
     nE, n, t = case['nE'], case['n'], case['t']
     pos = t + n if t < 0 else t
-    mt, tags_t = run_traced(case, trace_arg, repeat, entry)
+    mt, tags_t = run_traced(case, trace_arg, repeat, entry, reset)
     mu, tags_u = run_untraced(case, repeat)
     if tags_t != tags_u or state_str(mt, nE) != state_str(mu, nE) or mt.calls != mu.calls:
         rep.violate('trace-interferes',
                     f'trace={trace_arg!r} entry={entry}: traced {tags_t} {state_str(mt, nE)} vs untraced {tags_u} {state_str(mu, nE)}',
-                    {'case': case, 'trace': trace_arg, 'repeat': repeat, 'entry': entry})
+                    {'case': case, 'trace': trace_arg, 'repeat': repeat, 'entry': entry, 'reset': reset})
     s, labels, tr = trace_of(mt, pos)
     for p in range(n):
         if p != pos and not mt['trace'][p].is_empty():
             rep.violate('trace-other-period', f'trace written for period {p} while solving {pos}',
-                        {'case': case, 'trace': trace_arg, 'repeat': repeat, 'entry': entry})
+                        {'case': case, 'trace': trace_arg, 'repeat': repeat, 'entry': entry, 'reset': reset})
     if not trace_arg:
         if labels:
             rep.violate('trace-written-when-off', f'trace={trace_arg!r} but trace has labels {labels}',
-                        {'case': case, 'trace': trace_arg, 'repeat': repeat, 'entry': entry})
+                        {'case': case, 'trace': trace_arg, 'repeat': repeat, 'entry': entry, 'reset': reset})
         return s, mt, tags_t
-    if repeat == 1 and labels:
+    if repeat == 1 and labels and not reset:
         # shape: start, before, 0, 1..k [, end]; snapshot j = traced values after pass j; last = stored solution
         passes = [p for p in mt.passes if p[0] == pos]
         solved = tags_t[-1] == 'ret:T'
@@ -133,7 +133,7 @@ def oracle(case, trace_arg, names_idx, repeat, entry, rep):
             ok = ok and body == []
         if not ok:
             rep.violate('trace-shape', f'trace={trace_arg!r}: labels {labels} for result {tags_t}, iterations {int(mt.iterations[pos])}',
-                        {'case': case, 'trace': trace_arg, 'repeat': repeat, 'entry': entry})
+                        {'case': case, 'trace': trace_arg, 'repeat': repeat, 'entry': entry, 'reset': reset})
     return s, mt, tags_t
 
 
@@ -168,21 +168,22 @@ def _work(ctx, rep):
         trace_arg, idx = variants(rng, case['nE'])
         repeat = 2 if rng.random() < 0.15 else 1
         entry = 'solve_period' if rng.random() < 0.2 else 'solve_t'
-        s, mt, tags = oracle(case, trace_arg, idx, repeat, entry, rep)
+        reset = rng.random() < 0.25
+        s, mt, tags = oracle(case, trace_arg, idx, repeat, entry, rep, reset)
         on = bool(trace_arg)
         rep.dist[f'trace={"on" if on else "off"}:{tags[-1].split(":")[0]}'] += 1
-        rep.case(json.dumps([case, trace_arg, repeat, entry], sort_keys=True, default=str), nontrivial=on and bool(mt.passes),
+        rep.case(json.dumps([case, trace_arg, repeat, entry, reset], sort_keys=True, default=str), nontrivial=on and bool(mt.passes),
                  sample={'opts': case['opts'], 't': case['t'], 'trace': trace_arg, 'result': tags, 'trace_seen': s[:160]}
                  if rep.evaluations % 499 == 0 else None)
         req = dict(case)
-        req.update(traced=idx, on=on, repeat=repeat)
+        req.update(traced=idx, on=on, repeat=repeat, reset=reset)
         lines.append(sc.line('traced_solve_t', req))
-        expect.append((case, trace_arg, repeat, entry, ','.join(tags) + '|' + state_str(mt, case['nE']) + '|' + s))
+        expect.append((case, trace_arg, repeat, entry, reset, ','.join(tags) + '|' + state_str(mt, case['nE']) + '|' + s))
     if not ctx.oracle_only:
         outs = ctx.drive(lines)
-        for (case, trace_arg, repeat, entry, b), a in zip(expect, outs):
+        for (case, trace_arg, repeat, entry, reset, b), a in zip(expect, outs):
             if a != b:
-                rep.disagree('traced solve: model != impl', {'case': case, 'trace': trace_arg, 'repeat': repeat, 'entry': entry}, a, b)
+                rep.disagree('traced solve: model != impl', {'case': case, 'trace': trace_arg, 'repeat': repeat, 'entry': entry, 'reset': reset}, a, b)
     natural(ctx, rep)
 
 
@@ -241,5 +242,5 @@ def replay(ctx, rep, data):
         idx = [int(x[1:]) for x in data['trace']]
     elif isinstance(data['trace'], str):
         idx = [int(data['trace'][1:])]
-    s, mt, tags = oracle(case, data['trace'], idx, data.get('repeat', 1), data.get('entry', 'solve_t'), rep)
+    s, mt, tags = oracle(case, data['trace'], idx, data.get('repeat', 1), data.get('entry', 'solve_t'), rep, data.get('reset', False))
     print('  impl :', tags, state_str(mt, case['nE']), s)
